@@ -27,6 +27,21 @@ RespondsToQuery(d) == /\ HeaderReadable(d)
                       /\ d.qr /\ d.idm /\ d.opm
                       /\ d.qm \in {"same", "caseVariant", "emptyErr"}
 
+(* The message that was sent has an opcode of its own: QUERY, NOTIFY, STATUS or UPDATE.  QR, id
+   and opcode are compared the same way for all of them.  For a dynamic UPDATE the "question" is
+   the zone section, and RFC 2136 3.8 lets the server return it or leave it out, so an empty
+   zone section is a response whatever the rcode; whether a DIFFERENT zone section is a response
+   is left open (the universe does not deliver one to an UPDATE sender, see Deliverable). *)
+SentOpcodes == {"QUERY", "NOTIFY", "STATUS", "UPDATE"}
+RespondsTo(d, qop) == /\ HeaderReadable(d)
+                      /\ d.qr /\ d.idm /\ d.opm
+                      /\ d.qm \in {"same", "caseVariant", "emptyErr"} \cup (IF qop = "UPDATE" THEN {"emptyOther"} ELSE {})
+\* what can be told from a message whose body is cut or garbled: for an UPDATE the zone section
+\* need not come back at all, so QR, id and opcode of the header are all there is to match
+MayRespond(d, qop) == RespondsTo(d, qop)
+                      \/ (qop = "UPDATE" /\ d.wf = "badQuestion" /\ d.qr /\ d.idm /\ d.opm)
+Deliverable(d, qop) == qop = "UPDATE" => d.qm \notin {"different", "extra"}
+
 \* the whole octet string is a well-formed message (it = ignore_trailing in force)
 ParsesWith(d, it) == d.wf = "yes" \/ (d.wf = "trailing" /\ it)
 
